@@ -841,7 +841,7 @@ func (c *Ctx) lockOwners() []lockOwner {
 		for _, fname := range s.fields {
 			found := false
 			for i := 0; i < st.NumFields(); i++ {
-				if st.Field(i).Name() == fname {
+				if fieldCanon(st.Field(i)) == fname {
 					o.guarded[st.Field(i)] = true
 					found = true
 				}
